@@ -136,7 +136,8 @@ def reload_state(text: str, emb) -> dict:
     """Netlist(text) in the same process without disturbing the tolerance registers of the object under test"""
     from frame.netlist.netlist import Netlist
     from frame.geometry.geometry import Rectangle
-    saved = (Rectangle._distance_epsilon, Rectangle._area_epsilon)
+    # (public accessors only: a refactoring may move the registers)
+    saved = (Rectangle.distance_epsilon(), Rectangle.area_epsilon()) if Rectangle.epsilon_defined() else None
     Rectangle.undefine_epsilon()
     try:
         n2 = Netlist(text)
@@ -147,7 +148,9 @@ def reload_state(text: str, emb) -> dict:
     except Exception:
         return {"acc": 0, "state": {"mods": [], "nets": []}}
     finally:
-        Rectangle._distance_epsilon, Rectangle._area_epsilon = saved
+        Rectangle.undefine_epsilon()
+        if saved is not None:
+            Rectangle.set_epsilon(*saved)
 
 
 def run_case(case: dict) -> list:
